@@ -151,6 +151,14 @@ func (o *Out) Case(kind, term string, desc interface{}) {
 }
 func (o *Out) N() int { return len(o.terms) }
 
+// Each visits the cases collected so far (kind, Coq term, description)
+func (o *Out) Each(f func(kind, term string, desc interface{})) {
+	for i, t := range o.terms {
+		d := o.descs[i].(map[string]interface{})
+		f(d["kind"].(string), t, d["case"])
+	}
+}
+
 // Begin records the input about to be run, so that if the library crashes the
 // whole process (a panic on one of its own goroutines cannot be recovered by
 // the harness) the driver still knows which input did it.
